@@ -66,7 +66,14 @@ def _steps(draw):
                                          ("2021-11-06", "America/New_York"), ("2021-03-27", "Europe/London")]))
         g = {"start": date + " 00:00", "T": draw(st.integers(2, 5)), "freq": "d", "mtu": draw(st.sampled_from(["h", "d", "min"])),
              "tz": tz}
-    cls = draw(st.sampled_from(["simple", "transport", "storage", "coarse", "coarse", "plant_running"]))
+    cls = draw(st.sampled_from(["simple", "transport", "storage", "coarse", "coarse", "plant_running", "plant_ramp"]))
+    excluded = 0
+    if cls == "plant_ramp":
+        # known finding D58 (open): Plant / CHP take the length of the first step for every step (ramp limits, last
+        # dispatch); on steps of unequal length a constant rate is then excluded. Not generated; the listed replay
+        # keeps it visible.
+        excluded = 1
+        cls = "plant_running"
     cx = gen.Cx(g, ["n0", "n1"], {"p0": [1.0] * g["T"]})
     if cls == "coarse":
         if kind == "month":
@@ -88,7 +95,12 @@ def _steps(draw):
     for k in ("min_cap", "max_cap"):
         if isinstance(a.get(k), dict):
             a[k] = 1.0 if k == "max_cap" else 0.0
-    return {"kind": "steps", "grid": g, "prices": cx.prices, "assets": [a]}
+    if a["type"] == "storage" and draw(st.booleans()):
+        # per-time cost: holding cost per volume and main time unit, nothing else in the cost vector
+        a.update(cost_store=draw(st.sampled_from([0.125, 0.5, 2.0])), cost_in=0.0, cost_out=0.0, price=None, wacc=0.0,
+                 inflow=draw(st.sampled_from([0.0, a.get("inflow", 0.0)])))
+        a["_holding"] = True
+    return {"kind": "steps", "grid": g, "prices": cx.prices, "assets": [a], "excluded_known": excluded}
 
 
 def strategy(tier):
@@ -260,6 +272,19 @@ def check_steps(spec, out):
         ud = np.asarray(op.u, float)[d.index.values.astype(int)][np.argsort(d["time_step"].values.astype(int))]
         if not np.allclose(ud, a["max_cap"] * dt, rtol=1e-9, atol=1e-12):
             out.fail("plant: dispatch limits %s are not capacity x real step length %s" % (ud, a["max_cap"] * dt))
+        if a.get("ramp") is not None:
+            # a plant running at its full rate before and throughout the horizon changes its rate by nothing: the
+            # volumes capacity x step length must be admissible whatever the ramp limit is
+            out.label("plant_ramp")
+            raw = lpkit.from_op(op)
+            oi = on.index.values.astype(int)
+            raw.l[oi] = 1.0
+            di = d.index.values.astype(int)[np.argsort(d["time_step"].values.astype(int))]
+            raw.l[di] = raw.u[di] = a["max_cap"] * dt
+            feas = lpkit.feasible(raw)
+            if feas is False:
+                out.fail("plant with ramp %g: running at the constant full rate %g (volumes %s) is excluded on steps of unequal length"
+                         % (a["ramp"], a["max_cap"], list(a["max_cap"] * dt)))
         out.nontrivial = len(set(np.round(dt, 9))) >= 2
         return
     if a["type"] == "simple":
@@ -277,6 +302,15 @@ def check_steps(spec, out):
         else:
             el = np.hstack([-a["cap_in"] * dt, np.zeros(T)])
             eu = np.hstack([np.zeros(T), a["cap_out"] * dt])
+    if a.get("_holding"):
+        # a unit taken in (given out) in step t is held (no longer held) from step t to the end: cost_store x elapsed
+        # time from the beginning of step t to the end of the window, the charged unit weighted with the efficiency
+        out.label("holding_cost")
+        rest = np.array([dt[t:].sum() for t in range(T)], float) * a["cost_store"]
+        c = np.asarray(op.c, float)
+        ec = -rest if len(c) == T else np.hstack([-rest * a.get("eff_in", 1.0), -rest])
+        if len(c) != len(ec) or not np.allclose(c, ec, rtol=1e-9, atol=1e-12):
+            out.fail("holding cost per unit and step %s is not cost rate x elapsed time to the end %s" % (c, ec))
     if len(l) != len(el) or not np.allclose(l, el, rtol=1e-9, atol=1e-12) or not np.allclose(u, eu, rtol=1e-9, atol=1e-12):
         out.fail("per-step limits are not rate x real step length: l=%s u=%s expected l=%s u=%s" % (l, u, el, eu))
     else:
